@@ -41,6 +41,7 @@ type OMsg struct {
 type OScenario struct {
 	HProposes bool   `json:"hproposes"`
 	Fund      bool   `json:"fund,omitempty"` // the adversary funds its part, so that a completed signature exchange yields a live channel
+	Sub       bool   `json:"sub,omitempty"`  // the adversary proposes a SUB-channel of an established ledger channel (subopening_test.go)
 	Msgs      []OMsg `json:"msgs"`
 }
 
@@ -56,6 +57,18 @@ var okinds = []string{
 
 func drawOScenario(t *rapid.T) OScenario {
 	var s OScenario
+	if rapid.IntRange(0, 3).Draw(t, "sub") == 0 {
+		s.Sub = true
+		n := rapid.IntRange(1, 4).Draw(t, "nmsgs")
+		for i := 0; i < n; i++ {
+			s.Msgs = append(s.Msgs, OMsg{
+				Kind:  rapid.SampledFrom(osubKinds).Draw(t, "kind"),
+				Early: rapid.IntRange(0, 3).Draw(t, "early") == 0,
+				Ser:   rapid.SampledFrom([]string{"native", "protobuf"}).Draw(t, "ser"),
+			})
+		}
+		return s
+	}
 	s.HProposes = rapid.Bool().Draw(t, "hproposes")
 	s.Fund = rapid.Bool().Draw(t, "fund")
 	n := rapid.IntRange(1, 4).Draw(t, "nmsgs")
@@ -473,6 +486,10 @@ func runOCase(c OCase) *h.Outcome {
 		wg.Add(1)
 		go func(i int, sc OScenario) {
 			defer wg.Done()
+			if sc.Sub {
+				fails[i] = runOSubScenario(sc, i, o, &omu)
+				return
+			}
 			fails[i] = runOScenario(sc, i, o, &omu)
 		}(i, sc)
 	}
